@@ -162,6 +162,17 @@ func runC10(ctx *core.Ctx, out *core.Out) {
 		}
 		return
 	}
+	// no write-side call may touch the transport's READ deadline (the application never set one here)
+	if rd, _ := clean.nc.Deadlines(); !rd.IsZero() {
+		fail("write-side-call-armed-the-read-deadline", fmt.Sprintf("after a program of write-side calls the transport's read deadline is %v although the application never set one: a blocked reader would time out with it", dlName(clean.w, rd)), nil)
+		return
+	}
+	for _, op := range clean.ops {
+		if op.Kind == xport.OpSetDeadline || op.Kind == xport.OpSetReadDeadline {
+			fail("write-side-call-armed-the-read-deadline", fmt.Sprintf("a write-side call used %s on the transport", op.Kind), map[string]interface{}{"ops": opsDesc(clean.ops)})
+			return
+		}
+	}
 	// deadlines as identifiers: at every transport Write the write deadline armed on
 	// the transport (the last SetWriteDeadline/SetDeadline it saw; none = zero) must be
 	// the one the property names for that frame
@@ -205,7 +216,7 @@ func runC10(ctx *core.Ctx, out *core.Out) {
 	// ---- fault enumeration
 	nops := clean.nc.CountedOps()
 	for k := 0; k < nops; k++ {
-		for _, fk := range []xport.FaultKind{xport.FaultErr, xport.FaultTimeout, xport.FaultShort} {
+		for _, fk := range []xport.FaultKind{xport.FaultErr, xport.FaultTimeout, xport.FaultShort, xport.FaultNoDeadline, xport.FaultShortWrapped, xport.FaultShortTimeout} {
 			out.EvalH(ph^uint64(k+1)<<20^uint64(fk)<<8, k > 0)
 			fr := c10Exec(cfg, prog, seed, k, fk)
 			if fr.nc.FaultsHit == 0 {
